@@ -120,7 +120,9 @@ func (t *Input) CoerceIn(v interface{}) (interface{}, error) {
 							return nil, inErr(err, k)
 						}
 					} else {
-						tv[k] = f.Default
+						// A copy, the value is changed in place when it is
+						// coerced again as part of an enclosing value.
+						tv[k] = copyDefault(f.Default)
 					}
 				} else if _, ok := f.Type.(*NonNull); ok {
 					return nil, fmt.Errorf("%s is required but missing", k)
@@ -150,6 +152,26 @@ func (t *Input) CoerceIn(v interface{}) (interface{}, error) {
 		}
 	}
 	return v, nil
+}
+
+// copyDefault returns a copy of a default value so that later coercions of
+// the value it is placed in do not change the default kept in the schema.
+func copyDefault(v interface{}) interface{} {
+	switch tv := v.(type) {
+	case map[string]interface{}:
+		cp := make(map[string]interface{}, len(tv))
+		for k, m := range tv {
+			cp[k] = copyDefault(m)
+		}
+		return cp
+	case []interface{}:
+		cp := make([]interface{}, len(tv))
+		for i, m := range tv {
+			cp[i] = copyDefault(m)
+		}
+		return cp
+	}
+	return v
 }
 
 func inErr(err error, k string) error {
